@@ -46,6 +46,10 @@ pub enum Mutation {
     ForeignSigner(u16, Scalar),
     /// signature `which` replaced by a valid signature over the byte-reversed digest
     ReversedDigest(u16),
+    /// signature `which`+1 replaced by a copy of signature `which` (one signer answering for two)
+    DuplicateSig(u16),
+    /// signature `which`+1 replaced by a second, different signature of signer `which` (other flag byte)
+    SameSignerTwice(u16, u8),
     /// signature `which` made over another subscript (the whole locking script although a code separator precedes, or vice versa)
     WrongSubscript(u16),
 }
@@ -176,7 +180,7 @@ impl Property for C15 {
     const ID: &'static str = "C15";
 
     fn rule() -> String {
-        "Spending transactions (1..4 inputs, 0..4 outputs, boundary-valued fields), any input index, any u64 declared value, 1..3 keys (both compression forms, boundary scalars); locking scripts P2PK, P2PKH and bare m-of-n multisig (1<=m<=n<=3), each also in the ...VERIFY OP_1 form, with OP_CODESEPARATOR inserted at random top-level positions; each signature's flag from the twelve standard bytes; the spend is built and signed through the library's own API (Transaction::sign, set_locking_script, set_satoshis, pushes for the unlocking script) and then optionally mutated in one field (version, locktime, an outpoint, a sequence, an output value/script, an added output, the declared value, a public key, r, s, the flag byte, signature order, a dropped signature, a foreign signer, a signature over the byte-reversed digest, a signature over the wrong subscript). Oracle: the reference predicts accept/reject by verifying every (signature, key) pair with the reference ECDSA over reference SHA-256d of the reference preimage (C03/C10 oracle) of the current transaction with the flag from the signature, the subscript after the last code separator before the CHECK opcode and the declared value, multisig by ordered matching; the library must accept (run Ok and true on top) exactly when the reference does. Non-trivial = a mutated spend, a flag other than ALL, a code separator, or m < n; distinct by hash of the serialised case.".into()
+        "Spending transactions (1..4 inputs, 0..4 outputs, boundary-valued fields), any input index, any u64 declared value, 1..3 keys (both compression forms, boundary scalars); locking scripts P2PK, P2PKH and bare m-of-n multisig (1<=m<=n<=3), each also in the ...VERIFY OP_1 form, with OP_CODESEPARATOR inserted at random top-level positions; each signature's flag from the twelve standard bytes; the spend is built and signed through the library's own API (Transaction::sign, set_locking_script, set_satoshis, pushes for the unlocking script) and then optionally mutated in one field (version, locktime, an outpoint, a sequence, an output value/script, an added output, the declared value, a public key, r, s, the flag byte, signature order, a dropped signature, a foreign signer, a signature over the byte-reversed digest, a signature over the wrong subscript, one signer's signature used twice). Oracle: the reference predicts accept/reject by verifying every (signature, key) pair with the reference ECDSA over reference SHA-256d of the reference preimage (C03/C10 oracle) of the current transaction with the flag from the signature, the subscript after the last code separator before the CHECK opcode and the declared value, multisig by ordered matching; the library must accept (run Ok and true on top) exactly when the reference does. Non-trivial = a mutated spend, a flag other than ALL, a code separator, or m < n; distinct by hash of the serialised case.".into()
     }
 
     fn assumptions() -> Vec<String> {
@@ -211,6 +215,8 @@ impl Property for C15 {
             (any::<u16>(), keys::scalar()).prop_map(|(w, s)| Mutation::ForeignSigner(w, s)),
             any::<u16>().prop_map(Mutation::ReversedDigest),
             any::<u16>().prop_map(Mutation::WrongSubscript),
+            any::<u16>().prop_map(Mutation::DuplicateSig),
+            (any::<u16>(), 0u8..12).prop_map(|(w, f)| Mutation::SameSignerTwice(w, f)),
         ];
         (txs, any::<u16>(), gen::u64_edge(), prop::collection::vec(keys::key(), 1..4), 0u8..3, 1u8..8, any::<bool>(), prop_oneof![2 => Just(vec![]), 3 => prop::collection::vec(any::<u16>(), 1..3)], prop::collection::vec(0u8..12, 3), prop::option::weighted(0.6, mutation))
             .prop_map(|(tx, idx, value, keys, kind, signers, verify_form, codeseps, flags, mutation)| Case { tx, idx, value, keys, kind, signers, verify_form, codeseps, flags, mutation })
@@ -354,6 +360,27 @@ impl Property for C15 {
                             sigs[k] = b;
                         }
                         None => mutated = false,
+                    }
+                }
+                Mutation::DuplicateSig(w) => {
+                    if sigs.len() >= 2 {
+                        let k = gen::pick(*w, sigs.len() - 1);
+                        sigs[k + 1] = sigs[k].clone();
+                    } else {
+                        mutated = false;
+                    }
+                }
+                Mutation::SameSignerTwice(w, f) => {
+                    if sigs.len() >= 2 {
+                        let k = gen::pick(*w, sigs.len() - 1);
+                        let flag = STANDARD_FLAGS[(*f % 12) as usize];
+                        let mut t2 = parse_fresh(&r)?;
+                        match t2.sign(&signer_keys[k].lib(), sighash_of(flag).unwrap(), idx, &sub_script, value) {
+                            Ok(s) => sigs[k + 1] = s.to_bytes().unwrap(),
+                            Err(_) => mutated = false,
+                        }
+                    } else {
+                        mutated = false;
                     }
                 }
                 Mutation::WrongSubscript(w) => {
